@@ -4,12 +4,11 @@ CONSTANTS
   MaxRule = 2
   MaxHost = 3
   Mode = "policy"
-  PMode = "broker"
+  PMode = "history"
   ProxyPats <- DefaultProxyPats
-  CacheKey = "none"
+  CacheKey = "effective"
   HistRule = 1
   HistLen = 3
-INIT PInit
-NEXT PStutter
-INVARIANT PEmit
+SPECIFICATION PSpec
+INVARIANTS HistoryIndependent RejectedNeverRegistered ExplicitReject RegisteredAcceptsAllowed
 CHECK_DEADLOCK FALSE
